@@ -152,6 +152,11 @@ def tie(ctx):
             gap = r.choice(["0", "0", "0.1", "0.3"])
             # some runs without indel realignment: `_parse_read` then keeps the indel support table itself
             extra = {"indelpost": "false"} if k % 4 == 1 else {}
+            # reporting / guard switches given on the command line must act on the replay as they did on the run
+            if k % 4 == 3:
+                extra["display_format"] = "true"
+            if k % 12 == 8:
+                extra["min_avg_coverage"] = "0.05"   # (a sparse second gene: accepted live with this value, so accepted on replay)
             inp = {"genes": [y for y, _, _ in genes], "seed_index": k, "gap": gap, "params": extra}
             ptoks = [f"{a}={b}" for a, b in extra.items()]
             gene_arg = ",".join(p for _, _, p in genes)
